@@ -91,7 +91,7 @@ func c14Getters(c *hx.Ctx, r *hx.RNG) {
 		v = r.Finite(r.Range(1, 300), le)
 		cls = "getter/moderate-exponent"
 	}
-	x := hx.Mk(v, digitsOf(v)+uint(r.Intn(3)*r.Intn(25)), r.Mode())
+	x := hx.MkR(r, v, digitsOf(v)+uint(r.Intn(3)*r.Intn(25)), r.Mode())
 	what := "conversions of " + v.Full() + fmt.Sprintf(" (prec %d)", x.Prec())
 	c.Note(what)
 	if c.Verbose {
